@@ -166,6 +166,66 @@ func (v *Point) VarTimeScalarMultInt(k *[32]byte, p *Point) *Point {
 	return v.Set(acc)
 }
 
+// VarTimeScalarMultMonero sets v to exactly what Monero's ge_scalarmult(a, A)
+// computes, for EVERY 32-byte input a.
+//
+// ge_scalarmult recodes a into 64 signed radix-16 digits e[0..63] and is only
+// specified for a[31] <= 127, where e[63] <= 8 and the result is the integer
+// product a*A (a is not reduced mod l). For larger inputs the top digit can be
+// 9..16; the constant-time table lookup then selects no entry and adds the
+// identity, i.e. the top digit is silently dropped. linkchain's tests feed such
+// values (point encodings used as scalars), so the behaviour is reproduced.
+func (v *Point) VarTimeScalarMultMonero(a *[32]byte, A *Point) *Point {
+	checkInitialized(A)
+	if a[31] <= 127 {
+		return v.VarTimeScalarMultInt(a, A)
+	}
+	var e [64]int
+	carry := 0
+	for i := 0; i < 31; i++ {
+		carry += int(a[i])
+		carry2 := (carry + 8) >> 4
+		e[2*i] = carry - (carry2 << 4)
+		carry = (carry2 + 8) >> 4
+		e[2*i+1] = carry2 - (carry << 4)
+	}
+	carry += int(a[31])
+	carry2 := (carry + 8) >> 4
+	e[62] = carry - (carry2 << 4)
+	e[63] = carry2
+	if e[63] > 8 {
+		e[63] = 0 // no table entry matches: the identity is added
+	}
+	// multiples 1*A .. 8*A
+	var table [8]projCached
+	table[0].FromP3(A)
+	var t projP1xP1
+	var u Point
+	for i := 0; i < 7; i++ {
+		t.Add(A, &table[i])
+		u.fromP1xP1(&t)
+		table[i+1].FromP3(&u)
+	}
+	acc := NewIdentityPoint()
+	var p2 projP2
+	for i := 63; i >= 0; i-- {
+		for k := 0; k < 4; k++ {
+			p2.FromP3(acc)
+			t.Double(&p2)
+			acc.fromP1xP1(&t)
+		}
+		switch d := e[i]; {
+		case d > 0:
+			t.Add(acc, &table[d-1])
+			acc.fromP1xP1(&t)
+		case d < 0:
+			t.Sub(acc, &table[-d-1])
+			acc.fromP1xP1(&t)
+		}
+	}
+	return v.Set(acc)
+}
+
 // VarTimeDoubleScalarMult sets v = a*A + b*B for arbitrary points A and B
 // (variable time).
 func (v *Point) VarTimeDoubleScalarMult(a *Scalar, A *Point, b *Scalar, B *Point) *Point {
